@@ -82,6 +82,67 @@ UNW == 99   \* content of a never-written array cell (outside every universe use
 (* 1-based cell number of byte offset idx for element size es in an array of n cells; 0 = invalid access *)
 CellOf(idx, es, n) == IF idx >= 0 /\ idx % es = 0 /\ idx \div es < n THEN idx \div es + 1 ELSE 0
 
+-------------------------------------------------------------------------
+(* ---- regions and references (C15) ------------------------------------------------------------------
+   Memory model (region_domain.hpp header, VSTTE'21): memory is a set of cells with addresses 1..NADDR; 0 is null.
+   Addresses are abstract units: an object of size n occupies n consecutive addresses, gep_ref with offset k moves k
+   units and must stay inside the object (otherwise: outside the model).  Memory is PARTITIONED into regions: every
+   address belongs to one region class, fixed when the object is allocated (field "cls" of mkref = class of each cell
+   of the object; a struct whose fields live in different regions).  Several region VARIABLES may have the same class
+   (region_copy creates another version of the same part of memory).
+     reference variable : an address, 0 = null, UND = never assigned (using it = outside the model)
+     region variable    : tuple of 2*NADDR integers: [a] content of the cell at address a as seen by this region
+                          variable (UNW = never written), [NADDR+a] tag mask of that content (bit 1 = tag 1, bit 2 = tag 2)
+     the LAST component of the state is the allocator bookkeeping h:
+       h[1] next unused address (addresses are never reused, so distinct allocations get distinct addresses)
+       h[2][a] allocation site   h[3][a] 1 = allocated and not freed   h[4][a] region class
+       h[5][a] offset of a inside its object                           h[6][a] size of its object
+   Dereferencing null, a freed or foreign (wrong class) address, and loading a never-written cell have no successor.
+   Tags: weakest reading of the tag analysis - add_tag tags the content of one cell, a store replaces the content and
+   thereby clears the cell's tags (the real analysis also lets tags flow through scalar variables; every tag of this
+   semantics is also a tag of that one), region_copy copies them. *)
+NADDR == 8
+UND == -77   \* outside every universe, never the value of an integer variable
+HeapOf(s) == s[Len(s)]
+EmptyRegion == [k \in 1..(2 * NADDR) |-> IF k <= NADDR THEN UNW ELSE 0]
+EmptyHeap == <<1, [k \in 1..NADDR |-> 0], [k \in 1..NADDR |-> 0], [k \in 1..NADDR |-> 0], [k \in 1..NADDR |-> 0], [k \in 1..NADDR |-> 0]>>
+IsAddr(a) == 1 <= a /\ a <= NADDR
+(* a may be dereferenced through a region of class c *)
+Deref(s, a, c) == IsAddr(a) /\ HeapOf(s)[3][a] = 1 /\ HeapOf(s)[4][a] = c
+Or2(m, n) == LET b1 == IF m % 2 = 1 \/ n % 2 = 1 THEN 1 ELSE 0
+                 b2 == IF (m \div 2) % 2 = 1 \/ (n \div 2) % 2 = 1 THEN 2 ELSE 0
+             IN b1 + b2
+(* reference constraints RC = [k |-> "eq"|"ne"|"lt"|"le"|"gt"|"ge", p |-> var, q |-> var or 0 (= null), off |-> n]: p k q + off *)
+RefDefined(c, s) == s[c.p] # UND /\ (c.q = 0 \/ s[c.q] # UND)
+HoldsRef(c, s) ==
+  LET a == s[c.p]
+      b == IF c.q = 0 THEN 0 ELSE s[c.q] + c.off
+  IN CASE c.k = "eq" -> a = b
+       [] c.k = "ne" -> a # b
+       [] c.k = "lt" -> a < b
+       [] c.k = "le" -> a <= b
+       [] c.k = "gt" -> a > b
+       [] OTHER      -> a >= b
+(* allocation of an object of st.sz cells at the next unused addresses *)
+Alloc(st, s) ==
+  LET h == HeapOf(s)
+      a == h[1]
+      n == st.sz
+      In(k) == a <= k /\ k < a + n
+      h2 == <<a + n,
+              [k \in 1..NADDR |-> IF In(k) THEN st.site ELSE h[2][k]],
+              [k \in 1..NADDR |-> IF In(k) THEN 1 ELSE h[3][k]],
+              [k \in 1..NADDR |-> IF In(k) THEN st.cls[k - a + 1] ELSE h[4][k]],
+              [k \in 1..NADDR |-> IF In(k) THEN k - a ELSE h[5][k]],
+              [k \in 1..NADDR |-> IF In(k) THEN n ELSE h[6][k]]>>
+  IN IF a + n - 1 > NADDR THEN {} ELSE {[s EXCEPT ![st.x] = a, ![Len(s)] = h2]}
+(* free of the object whose base address is a *)
+Free(s, a) ==
+  LET h == HeapOf(s)
+      h2 == [h EXCEPT ![3] = [k \in 1..NADDR |-> IF a <= k /\ k < a + h[6][a] THEN 0 ELSE h[3][k]]]
+  IN [s EXCEPT ![Len(s)] = h2]
+StoreCell(s, r, a, v) == [s EXCEPT ![r] = [k \in 1..(2 * NADDR) |-> IF k = a THEN v ELSE IF k = NADDR + a THEN 0 ELSE s[r][k]]]
+
 Succ(st, s, U, Hv(_)) ==
   CASE st.op = "assign"  -> Set1(s, st.x, {EvalLE(st.e, s)}, U)
     [] st.op = "arith"   -> Set1(s, st.x, ArithVal(st.f, s[st.y], Opnd(st, s)), U)
@@ -113,6 +174,46 @@ Succ(st, s, U, Hv(_)) ==
     [] st.op = "aload"   -> LET c == CellOf(EvalLE(st.i, s), st.es, Len(s[st.a]))
                             IN IF c = 0 THEN {} ELSE IF s[st.a][c] = UNW THEN {} ELSE Set1(s, st.x, {s[st.a][c]}, U)
     [] st.op = "aassign" -> {Upd(s, st.a, s[st.b])}
+    \* ---- regions and references (see the comment above NADDR)
+    [] st.op = "rinit"   -> {Upd(s, st.r, EmptyRegion)}
+    [] st.op = "rcopy"   -> {Upd(s, st.l, s[st.r])}
+    [] st.op = "rcast"   -> {Upd(s, st.l, s[st.r])}
+    [] st.op = "mkref"   -> Alloc(st, s)
+    [] st.op = "rnull"   -> IF st.hv = 1 \/ s[st.x] = UND \/ s[st.x] = 0 THEN {Upd(s, st.x, 0)} ELSE {}
+    [] st.op = "rmref"   -> LET a == s[st.x]
+                            IN IF a = 0 THEN {s}
+                               ELSE IF a # UND /\ Deref(s, a, st.cls) /\ HeapOf(s)[5][a] = 0 THEN {Free(s, a)} ELSE {}
+    [] st.op = "rstore"  -> LET a == s[st.ref]
+                                v == IF st.vk = 1 THEN st.v ELSE s[st.v]
+                            IN IF a = UND \/ ~Deref(s, a, st.cls) \/ v = UND \/ ~InU(v, U) THEN {} ELSE {StoreCell(s, st.r, a, v)}
+    [] st.op = "rload"   -> LET a == s[st.ref]
+                            IN IF a = UND \/ ~Deref(s, a, st.cls) THEN {}
+                               ELSE IF s[st.r][a] = UNW THEN {} ELSE {Upd(s, st.x, s[st.r][a])}
+    [] st.op = "gep"     -> LET y == s[st.y]
+                                o == EvalLE(st.off, s)
+                                h == HeapOf(s)
+                            IN IF y = UND THEN {}
+                               ELSE IF y = 0 THEN (IF o = 0 THEN {Upd(s, st.x, 0)} ELSE {})
+                               ELSE IF ~Deref(s, y, st.ycls) \/ h[5][y] + o < 0 \/ h[5][y] + o >= h[6][y] THEN {}
+                               ELSE IF h[4][y + o] # st.cls THEN {} ELSE {Upd(s, st.x, y + o)}
+    [] st.op = "rassume" -> IF RefDefined(st.c, s) /\ HoldsRef(st.c, s) THEN {s} ELSE {}
+    [] st.op = "rassert" -> IF RefDefined(st.c, s) /\ HoldsRef(st.c, s) THEN {s} ELSE {}
+    [] st.op = "bassign_ref" -> IF RefDefined(st.c, s) THEN {Upd(s, st.x, IF HoldsRef(st.c, s) THEN 1 ELSE 0)} ELSE {}
+    [] st.op = "rselect" -> LET v == IF s[st.c] = 1 THEN (IF st.y = 0 THEN 0 ELSE s[st.y]) ELSE (IF st.z = 0 THEN 0 ELSE s[st.z])
+                            IN IF v = UND THEN {} ELSE IF v # 0 /\ ~Deref(s, v, st.cls) THEN {} ELSE {Upd(s, st.x, v)}
+    [] st.op = "r2i"     -> IF s[st.ref] = UND THEN {} ELSE Set1(s, st.x, {s[st.ref]}, U)
+    [] st.op = "i2r"     -> IF s[st.y] = 0 THEN {Upd(s, st.x, 0)}
+                            ELSE IF Deref(s, s[st.y], st.cls) THEN {Upd(s, st.x, s[st.y])} ELSE {}
+    \* intrinsics of the region domain
+    [] st.op = "addtag"  -> LET a == s[st.ref]
+                            IN IF a = UND \/ ~Deref(s, a, st.cls) \/ s[st.r][a] = UNW THEN {}
+                               ELSE {Upd(s, st.r, [s[st.r] EXCEPT ![NADDR + a] = Or2(@, st.tag)])}
+    [] st.op = "isderef" -> LET a == s[st.ref]
+                            IN IF a = UND \/ (a # 0 /\ ~Deref(s, a, st.cls)) THEN {}
+                               ELSE {Upd(s, st.x, IF a # 0 /\ HeapOf(s)[5][a] + st.n <= HeapOf(s)[6][a] THEN 1 ELSE 0)}
+    [] st.op = "isunfreed" -> LET a == s[st.ref]
+                              IN IF a = UND \/ (a # 0 /\ (~IsAddr(a) \/ HeapOf(s)[4][a] # st.cls)) THEN {}
+                                 ELSE {Upd(s, st.x, IF a = 0 \/ HeapOf(s)[3][a] = 1 THEN 1 ELSE 0)}
 
 SuccSet(st, S, U, Hv(_)) == UNION {Succ(st, s, U, Hv) : s \in S}
 =========================================================================
